@@ -653,7 +653,21 @@ func (r *Replica) Restore(ctx context.Context, opt RestoreOptions) (err error) {
 					return fmt.Errorf("cannot resume follow mode: saved TXID %s is behind the earliest snapshot (min TXID %s); replica history has been pruned -- delete %s and %s-txid to re-restore", txid, latestSnapshot.MinTXID, opt.OutputPath, opt.OutputPath)
 				}
 				if txid > latestSnapshot.MaxTXID {
-					return fmt.Errorf("cannot resume follow mode: saved TXID %s is ahead of latest snapshot (max TXID %s); delete %s and %s-txid to re-restore", txid, latestSnapshot.MaxTXID, opt.OutputPath, opt.OutputPath)
+					// A follower is normally ahead of the newest snapshot. Its saved
+					// position is only stale if it is ahead of everything on the replica.
+					replicaMaxTXID := latestSnapshot.MaxTXID
+					for level := 0; level < SnapshotLevel; level++ {
+						info, err := r.MaxLTXFileInfo(ctx, level)
+						if err != nil {
+							return fmt.Errorf("cannot validate saved TXID for crash recovery: %w", err)
+						}
+						if info.MaxTXID > replicaMaxTXID {
+							replicaMaxTXID = info.MaxTXID
+						}
+					}
+					if txid > replicaMaxTXID {
+						return fmt.Errorf("cannot resume follow mode: saved TXID %s is ahead of the replica (max TXID %s); delete %s and %s-txid to re-restore", txid, replicaMaxTXID, opt.OutputPath, opt.OutputPath)
+					}
 				}
 			}
 
